@@ -1,6 +1,6 @@
 ---------------------------- MODULE AbsorbScenes ----------------------------
 (* C12: Init enumerates the configuration space of the sweep
-       face under test x source kind x polarisation x thickness class                     (144 scenes)
+       face under test x source kind x polarisation x thickness class x grading           (576 scenes)
    and the phase machine  Pulse -> Ringdown -> Quiet  runs over an ABSTRACT observation: lvl = decades by which
    the interior energy lies below its peak.  The abstraction states what "absorbing" has to mean for the two
    thresholds of the statement to be consistent with each other:
@@ -12,12 +12,14 @@
      * without a source the energy never grows.
    Invariant QuietAbsorbed is the statement's first clause; DiffClause its second.  The negative instances
    (MC_AbsorbScenes_neg: a source with net charge; _neg2: one face without layer; _neg3: too few transits
-   waited for the stated bound) must be rejected - the preconditions are necessary in the model.        *)
+   waited for the stated bound; _neg4: the (1/kappa - 1) dF term of kappa-graded layers is dropped while a/b
+   still contain kappa - such layers then lose only 2 decades per hit and DiffClause fails) must be rejected. *)
 EXTENDS AbsorbDefs, TLC
 CONSTANTS LossPerHit,     \* decades lost per arrival at an absorbing face
           ChargeFree,     \* TRUE: the statement's "zero-net-charge" precondition holds for every source kind
           OpenFace,       \* "none" or a face name: that face has no absorbing layer (precondition violated)
-          Transits        \* number of domain transits the monitor waits before it calls the run Quiet
+          Transits,       \* number of domain transits the monitor waits before it calls the run Quiet
+          StretchApplied  \* TRUE: layers with graded kappa apply the real-stretch term to the derivative
 VARIABLES cfg, phase, k, lvl
 vars == << cfg, phase, k, lvl >>
 MaxLevel == 24
@@ -25,8 +27,14 @@ StaticLevel == 3
 Min2(a, b) == IF a < b THEN a ELSE b
 ThickOf(f) == IF f = OpenFace THEN 0 ELSE cfg.thick
 Absorbing(f) == ThickOf(f) >= MinThick
-Floor == IF ChargeFree \/ cfg.kind # "edipole" THEN MaxLevel ELSE StaticLevel
-Loss(f) == IF Absorbing(f) THEN LossPerHit ELSE 0
+\* real runs with the stretch term dropped (seeded regression): kappa 1 -> 10 layers keep about 1e-5 of the peak for long
+StretchResidue == 5
+Floor == IF ~(ChargeFree \/ cfg.kind # "edipole") THEN StaticLevel
+         ELSE IF cfg.grading \in {"kappa5", "kappa10"} /\ ~StretchApplied THEN StretchResidue ELSE MaxLevel
+KappaGraded == cfg.grading \in {"kappa5", "kappa10"}
+Min0(a, b) == IF a < b THEN a ELSE b
+Loss(f) == IF ~Absorbing(f) THEN 0
+           ELSE IF KappaGraded /\ ~StretchApplied THEN Min0(2, LossPerHit) ELSE LossPerHit
 
 Init == /\ cfg \in Configs
         /\ phase = "Pulse" /\ k = 0 /\ lvl = 0        \* lvl = 0: the peak is reached while the source is on
@@ -48,6 +56,6 @@ DiffClause == (phase = "Ringdown" /\ k >= 1) => lvl >= 4
 PhaseMonotone == [][PhaseOrder(phase') >= PhaseOrder(phase)]_vars
 NoGrowth == [][phase # "Pulse" => lvl' >= lvl]_vars
 \* the enumeration is what the harness sweeps (count cross-checked by checks/C12.py)
-ConfigCount == Cardinality(Configs) = 144
+ConfigCount == Cardinality(Configs) = 576
 ASSUME ConfigCount
 =============================================================================
